@@ -144,7 +144,7 @@ HARNESSES = LINKS + [
     Harness('dec_i64', 'h_dec_i64', enforce='dec_to_integer_i64', replace=['dec_to_integer_u64'], method='WU(22)', unwind=22, flags=US, props=['C04'], timeout=600),
     Harness('itoa_i64', 'h_itoa_i64', enforce='from_integer_i64', method='WU(22)', unwind=22, split=True, flags=US, props=['C04', 'C01', 'C08'], timeout=300),
     Harness('itoa_u64', 'h_itoa_u64', enforce='from_integer_u64', method='WU(22)', unwind=22, split=True, flags=US, props=['C04', 'C01', 'C08'], timeout=300)
-] + [Harness('lemma_int_rt_n%d' % n, 'h_int_rt', replace=['from_integer_i64', 'from_integer_u64'], method='WU(22)', unwind=22, flags=US, split=True, props=['C04', 'C01'], timeout=900,
+] + [Harness('lemma_int_rt_n%d' % n, 'h_int_rt', replace=['from_integer_i64', 'from_integer_u64'], method='WU(22)', unwind=22, flags=US, solver='cadical', props=['C04', 'C01'], timeout=1500,
              defines=['VX_H_lemma_int_rt', 'VX_N=%d' % n],
              note='L-INT-RT, case n=%d digits: dec_to_integer(from_integer(v)) == v, signed and unsigned: real extracted body of dec_to_integer, from_integer through its contract (ghost digit record), explicit induction over the digits' % n)
      for n in range(1, 21)]
